@@ -268,7 +268,12 @@ class Renderer:
         else:
             lines.append(f"def {name}({params}):")
         cmt = "  # c%d" % self.variant["cmt:" + name] if self.variant.get("cmt:" + name) else ""
-        lines.append(f"{ind}pipelog.hit({name!r}){cmt}")
+        if f.get("nolog"):
+            # a function that references no name of a non-accepted module at all (its executions are not observable)
+            if cmt:
+                lines.append(f"{ind}pass{cmt}")
+        else:
+            lines.append(f"{ind}pipelog.hit({name!r}){cmt}")
         for i, it in enumerate(f.get("body", [])):
             for l in self.item(i, it, mod, imports):
                 lines.append(ind + l)
@@ -322,10 +327,11 @@ class Renderer:
             out[f"{hp}/__init__.py"] = ""
             for hm in hmods:
                 body = []
+                imps = set()
                 for f in self.spec["funcs"]:
                     if f["module"] == "H:" + hm:
-                        body += [""] + self.func(dict(f, module=hm), set())
-                out[f"{hp}/{hm}.py"] = "import pipelog\nimport pipehelp\nimport dds\n" + "\n".join(body) + "\n"
+                        body += [""] + self.func(dict(f, module=hm), imps)
+                out[f"{hp}/{hm}.py"] = "import pipelog\nimport pipehelp\nimport dds\n" + "".join(i + "\n" for i in sorted(imps)) + "\n".join(body) + "\n"
         for mod in self.spec["modules"]:
             parts = mod.split(".")
             for i in range(len(parts)):
